@@ -190,6 +190,15 @@ PROPS = {
         "native": "p18",
         "explanation": "proved: scope, type preservation, untouched identity, error containment of the string-transformer shell; bounded: the encode/decode round trip and the converter-exception handling of the shipped hooks",
     },
+    "C16": {
+        "level": "other",
+        "level_text": "Mixed. Proved (contract on the real SortBlocksByTypeAndKeyMiddleware._block_junks, every block list of any length): the grouping that keeps comments attached is a partition of the block list into consecutive junks -- concatenated they are the input, every block once and in order (ghost arrays record the boundaries); every junk but possibly the last ends with exactly one non-comment block and holds only comments before it, a trailing junk holds comments only; the sort key of a junk is the key of its main block when that block is an Entry, a String or a duplicate-key block, else the empty string; the input list is not modified. With the assumed stable-sort contract (A-SORT) this is what carries 'every run of comments directly above a non-comment block stays directly above that block in the same internal order'. Bounded (native, labelled): the sort itself and the resulting order by (type rank, key) with ties in original order, in both comment modes, the deep copy that leaves the input library unchanged (the sort keys are closures with exception control flow), block-type-order validation.",
+        "level_note": STD_NOTE + "; dataclass construction (_BlockJunk) per the dataclass field declarations; block.key resolved per class (classes without a key raise AttributeError, which the function catches).",
+        "modules": ["schema", "sortblocks"],
+        "functions": ["bibtexparser.middlewares.sorting_blocks.SortBlocksByTypeAndKeyMiddleware._block_junks"],
+        "native": "p16",
+        "explanation": "proved: the comment-attaching partition (junks) and their sort keys; bounded: the sort order by (type, key), stability end to end, input unchanged",
+    },
     "C10": {
         "level": "other",
         "level_text": "Mixed. Proved for all values and option combinations (contracts on the 7 real functions + 2 lemmas, 95 obligations): exactly one layer is stripped and its kind recorded, reuse restores the original, default enclosing, integer rule, no exception, frames. Bounded (native, labelled): an enclosed value written into an entry re-parses as one field (needs the grammar lemma).",
